@@ -289,7 +289,9 @@ def rule_deleg(ctx, rep):
                 # ... asked exactly once, and nothing else is: the answer (and, for Hash, everything fed to the hasher) is the
                 # value's own - `Arc<T>` must hash like `T` to stand in for it as a map key (R-ONCE)
                 An = balance.analysis(tag, F, E)
-                if key in An.paths and key not in An.errors:
+                # (only where asking twice changes the answer: everything fed to a hasher or written to a formatter counts;
+                # a comparison asked twice answers the same)
+                if key in An.paths and key not in An.errors and tr in ("core::hash::Hash", "core::fmt::Debug", "core::fmt::Display"):
                     us = [vget(p.vec, "user") for p in An.paths[key] if p.exit == "ret"]
                     if us and max(us) > 1:
                         rep.bad("R-ONCE", key, "%s::%s on %s calls into user code %d times on one path (the value's own `%s` must be asked exactly once and nothing else - e.g. no second hash, no extra write to the hasher): the handle no longer answers as the value it holds does" % (tr.split("::")[-1], m, st["s"], max(us), m), F.loc(b), tag)
@@ -318,13 +320,18 @@ def rule_deleg(ctx, rep):
                         for d in Bh.defs().get(l0, []):
                             if d[0] == "call":
                                 t = d[2]
-                                if t.get("callee_trait") in ("core::cmp::PartialEq", "core::cmp::PartialOrd", "core::cmp::Ord") and t.get("callee_name") == m:
-                                    continue
-                                if atomics.callee_of(t) in F.bodies and (F.body(atomics.callee_of(t)).get("name") == m or inline.lending_pred(F)(atomics.callee_of(t))):
-                                    continue  # the same question put to another handle (judged there), or a lending function that was not inlined
-                                if (atomics.callee_of(t) or "").endswith("::ptr_eq") and m in ("eq", "ne"):
-                                    continue
-                                post = "the result passes through `%s` (line %s)" % (atomics.callee_of(t), t["span"]["line"])
+                                cn = atomics.callee_of(t) or ""
+                                # only operations that turn an answer into a different one are post-processing; passing the
+                                # answer through a callable, `map_or(false, ..)`, `unwrap_or(..)` ... keeps it
+                                if cn in ("<core::cmp::Ordering>::reverse", "<core::cmp::Ordering>::is_lt", "<core::cmp::Ordering>::is_le", "<core::cmp::Ordering>::is_gt", "<core::cmp::Ordering>::is_ge", "<core::cmp::Ordering>::is_eq", "<core::cmp::Ordering>::is_ne", "<bool as core::ops::bit::Not>::not", "<core::option::Option<T>>::is_some", "<core::option::Option<T>>::is_none") or (cn == "<core::option::Option<T>>::map" and tr != "core::cmp::PartialEq" and any("reverse" in str(F.ty(a["t"]).get("def", "")) for a in (t.get("resolved") or {}).get("args", []) if isinstance(t.get("resolved"), dict) and "t" in a)):
+                                    post = "the result passes through `%s` (line %s)" % (cn, t["span"]["line"])
+                                elif cn in ("<core::cmp::Ordering>::reverse",):
+                                    post = "reversed"
+                                else:
+                                    for a in t["args"]:
+                                        pa = operand_place(a)
+                                        if pa is not None and not pa["p"] and F.ts(bh["locals"][pa["l"]]["ty"]) in ("bool", "core::cmp::Ordering", "core::option::Option<core::cmp::Ordering>"):
+                                            todo.append(pa["l"])  # an answer handed through (`map_or`, a callable)
                             else:
                                 rv = d[3]
                                 if rv["k"] == "use":
